@@ -256,30 +256,45 @@ fn cli_level(rep: &Report) {
     let kr = crate::fx::keyring(&parties.iter().map(|p| (p, true)).collect::<Vec<_>>());
     let names: Vec<&str> = parties.iter().map(|p| p.name.as_str()).collect();
     let pks: Vec<(&str, &[u8; 32])> = parties.iter().map(|p| (p.name.as_str(), &p.pk)).collect();
+    // wiring: 0 = -o fresh path, 1 = stdout pipe, 2 = -o path that already holds a longer file,
+    //         3 = password typed at a terminal that is stdin (no controlling terminal), ciphertext on a stdout pipe
     let mut jobs = vec![];
     for s in 0..3 {
         for rc in 0..3 {
             for n in [0usize, 10, 70000] {
-                for via_stdout in [false, true] {
-                    jobs.push((s, rc, n, via_stdout));
+                for wiring in 0..4u8 {
+                    jobs.push((s, rc, n, wiring));
                 }
             }
         }
     }
     let lens: Vec<Option<(usize, usize, usize)>> = jobs
         .par_iter()
-        .map(|&(s, rc, n, via_stdout)| {
+        .map(|&(s, rc, n, wiring)| {
             rep.eval(1);
+            let via_stdout = wiring == 1 || wiring == 3;
             let p = plaintext(seed ^ 0x84, n);
             let check = || -> Result<Vec<u8>, String> {
                 let sc = Scratch::new();
                 sc.write("kr.txt", kr.as_bytes());
                 sc.write("plain.bin", &p);
-                let mut args = vec!["encrypt", "plain.bin", "-t", &parties[rc].name, "-f", &parties[s].name, "-k", "kr.txt", "--env-pass"];
+                if wiring == 2 {
+                    sc.write("out.ktl", &vec![b'P'; 100_000]);
+                }
+                let mut args = vec!["encrypt", "plain.bin", "-t", &parties[rc].name, "-f", &parties[s].name, "-k", "kr.txt"];
+                if wiring != 3 {
+                    args.push("--env-pass");
+                }
                 if !via_stdout {
                     args.extend_from_slice(&["-o", "out.ktl"]);
                 }
-                let out = proc::run(&Cmd::new(&args).env("KESTREL_PASSWORD", &parties[s].password), &sc.0);
+                let mut cmd = Cmd::new(&args);
+                if wiring == 3 {
+                    cmd.pty = Some(proc::PtySpec { typed: format!("{}\n", parties[s].password).into_bytes(), controlling: false, stdin_is_tty: true, stdout_is_tty: false });
+                } else {
+                    cmd = cmd.env("KESTREL_PASSWORD", &parties[s].password);
+                }
+                let out = proc::run(&cmd, &sc.0);
                 out.well_behaved()?;
                 if !out.ok() {
                     return Err(format!("encrypt failed: {}", out.summary()));
@@ -287,10 +302,11 @@ fn cli_level(rep: &Report) {
                 let file = if via_stdout { out.stdout.clone() } else { sc.read("out.ktl").ok_or("no output file")? };
                 Ok(file)
             };
-            let case = json!({"kind":"cli","s":s,"r":rc,"n":n,"stdout":via_stdout});
+            let case = json!({"kind":"cli","s":s,"r":rc,"n":n,"wiring":wiring});
+            let wname = ["-o fresh path", "stdout pipe", "-o path holding a longer file", "password typed at a tty stdin, stdout pipe"][wiring as usize];
             match check() {
                 Err(e) => {
-                    rep.violation("cli/encrypt", case, format!("{}->{} n={} stdout={}: {}", names[s], names[rc], n, via_stdout, e));
+                    rep.violation("cli/encrypt", case, format!("{}->{} n={} [{}]: {}", names[s], names[rc], n, wname, e));
                     None
                 }
                 Ok(file) => {
@@ -301,7 +317,7 @@ fn cli_level(rep: &Report) {
                         _ => rep.violation(
                             "cli/output-is-not-exactly-a-conforming-file",
                             case.clone(),
-                            format!("CLI output for {}->{} (n={}, {}) is not exactly a conforming encrypted file ({} bytes; expected {})", names[s], names[rc], n, if via_stdout { "stdout" } else { "-o" }, file.len(), 132 + 32 * ((n + CS - 1) / CS).max(1) + n),
+                            format!("CLI output for {}->{} (n={}, {}) is not exactly a conforming encrypted file ({} bytes; expected {})", names[s], names[rc], n, wname, file.len(), 132 + 32 * ((n + CS - 1) / CS).max(1) + n),
                         ),
                     }
                     Some((n, via_stdout as usize, file.len()))
